@@ -9,6 +9,8 @@
 (*   compress  tfm::compress                        meets Contract with the   *)
 (*             least tolerance                                                *)
 (*   nl        NextLargerProgram::new / get         = Chain(Cut(links))       *)
+(*   nltags    list tags left by tfm::File::validate_and_fix (TFtoPL) and by  *)
+(*             pl::File::from_pl_source_code (PLtoTF) = Cut(links)            *)
 (* A line that is not accepted produces a VERDICT naming the clause.          *)
 EXTENDS TfmArith, TLC, Json, IOUtils, SequencesExt
 Rec == ndJsonDeserialize(IOEnv.TRACE)
@@ -75,6 +77,17 @@ AnyWidth(sv, cls) ==                 \* classes of any shape
 IsRuns(cls) == \A i \in 1 .. (Len(cls) - 1) : cls[i] <= cls[i + 1]
 WidestClass(sv, cls) == IF IsRuns(cls) THEN RunWidth(sv, cls, 1, 0, 0) ELSE AnyWidth(sv, cls)
 
+(* Accepted results are also compared with what PLtoTF 77 (set_indices) would  *)
+(* store.  That is not part of the contract: PLtoTF stops merging as soon as    *)
+(* `excess` values have been removed, compress merges every class fully.  The   *)
+(* difference is only counted (INFO line), never judged.                        *)
+Pltotf(e, sv, rep) ==
+  LET k == SetIndices(sv, e.m)
+      Info(key) == PrintT(<<"INFO", ToJson([l |-> l, key |-> key])>>)
+  IN IF k.cls # e.cls THEN Info("differs-from-pltotf-classes")            \* the `excess` rule
+     ELSE IF k.rep # rep THEN Info("differs-from-pltotf-midpoint-rounding") \* l+(h-l) div 2 vs (l+h)/2, negative odd sums
+     ELSE TRUE
+
 CheckCompress(e) ==
   LET sv  == e.sv
       n   == Len(sv)
@@ -87,8 +100,10 @@ CheckCompress(e) ==
      ELSE LET d == WidestClass(sv, e.cls)
           IN IF ~IsLeast(sv, e.m, d)
              THEN Verdict("compress-tolerance-not-least", [got |-> d, least |-> Shorten(sv, e.m)])
-             ELSE Judge(\A i \in 1 .. n : Abs(sv[i] - rep[e.cls[i]]) <= HalfUp(d),
-                        "compress-representative", [d |-> d, half |-> HalfUp(d)])
+             ELSE IF \E i \in 1 .. n : Abs(sv[i] - rep[e.cls[i]]) > HalfUp(d)
+                  THEN Verdict("compress-representative", [d |-> d, half |-> HalfUp(d)])
+                  ELSE Pltotf(e, sv, rep)
+
 
 -----------------------------------------------------------------------------
 (* next larger.  edges: the links (a functional graph); absent: characters    *)
@@ -113,6 +128,19 @@ CheckNl(e) ==
      ELSE IF PairSet(e.loops) # wl \/ Len(e.loops) # Cardinality(wl) THEN Verdict("nl-cycle-warnings", wl)
      ELSE Judge(PairSet(e.nonex) = wn /\ Len(e.nonex) = Cardinality(wn), "nl-nonexistent-warnings", wn)
 
+(* the list tags that survive in a tfm::File (links to missing characters are   *)
+(* dropped first) or in a pl::File (missing characters are created)             *)
+CheckNlTags(e) ==
+  LET E    == PairSet(e.edges)
+      dom  == { p[1] : p \in E }
+      g0   == [c \in dom |-> (CHOOSE p \in E : p[1] = c)[2]]
+      abs  == { e.absent[i] : i \in 1 .. Len(e.absent) }
+      kept == IF e.path = "tfm" THEN [c \in { x \in dom : g0[x] \notin abs } |-> g0[c]] ELSE g0
+      h    == Cut(kept)
+      want == { <<c, h[c]>> : c \in DOMAIN h }
+  IN IF Cardinality(dom) # Len(e.edges) THEN Verdict("harness-not-functional", 0)
+     ELSE Judge(PairSet(e.tags) = want /\ Len(e.tags) = Cardinality(want), "nl-tags", want)
+
 -----------------------------------------------------------------------------
 Check(e) ==
   IF "panic" \in DOMAIN e THEN Verdict("panic", e.panic)
@@ -123,6 +151,7 @@ Check(e) ==
          [] e.fn = "scaled"   -> CheckScaled(e)
          [] e.fn = "compress" -> CheckCompress(e)
          [] e.fn = "nl"       -> CheckNl(e)
+         [] e.fn = "nltags"   -> CheckNlTags(e)
          [] OTHER             -> Verdict("unknown-event", 0)
 
 TInit == l = 1
